@@ -151,3 +151,11 @@ PROPS["C27"] = dict(explanation="Bounded symbolic execution of the real NewNumpy
     bounds=["1..3 buckets, 0..2 rows each, schema Epoch + one value column of int32, float32 or uint16", "all values symbolic"],
     outside=["the msgpack library (field copy stands for encode+decode)", "other wire types (the type table is exercised by name only for i4/f4/u2/i8)", "known finding region: datasets containing a zero-length bucket"],
     stubs=["reflect: engine mini-reflect", "msgpack: field copy"], assumptions=COMMON_ASSUME)
+
+
+PROPS["C14"] = dict(explanation="(a) Bounded symbolic execution of the real Writer.WriteCSM schema check (GetLatestTimeBucketInfoFromKey, AddTimeBucket for a new bucket, GetMissingAndTypeCoercionColumns over the engine's mini-reflect, WriteRecords, RequestFlush) over the file-system model: one request names bucket X (new or existing) and an existing bucket Y whose columns do not match by name (renamed, extra or missing column); both iteration orders of the request map are explored (Go leaves the order open). The request must be rejected, and after the server's next flush neither X nor Y has changed. (b) ColumnSeries.CoerceColumnType (toInt/toUint/toFloat over reflect values) for every pair of source and destination numeric type with a symbolic value against Go's own conversion.",
+    runs=[dict(pkg="executor", files=["c08_fixed.go", "c09_variable.go", "c11_range.go", "c14_schema.go"], entries=["VerifC14Reject"], must_reach=["entered", "flushed"], opts=dict(timeout=30), replay_retries=12),
+          dict(pkg="utils/io", files=["c14_coerce.go"], entries=["VerifC14Coerce"], must_reach=["entered", "coerced"], opts=dict(timeout=30))],
+    bounds=["(a) two buckets per request, one mismatching in one of three ways, values symbolic, X new or existing, both map orders", "(b) source types int16,int32,int64,uint8,uint16,uint32,uint64,float32,float64 x the same destination types, one symbolic value; floats k/16 resp. k/1024 with |k| <= 2^20 resp. 2^40"],
+    outside=["negative floats coerced to unsigned columns (implementation-defined in Go, assumed away)", "reordered columns with equal names (accepted by design: matching is by name)", "known finding region: the X row of a rejected request stays queued and is stored by the next flush when the map yields X before Y"],
+    stubs=FS_STUBS + ["reflect: engine mini-reflect"], assumptions=COMMON_ASSUME)
